@@ -23,9 +23,10 @@ import (
 )
 
 type fsPlan struct {
-	ref     *chainfx.Node
-	headers []*types.Block // blocks above the victim's head, the last one is the snapshot height
-	snap    []byte         // state snapshot at the last header (produced once)
+	ref      *chainfx.Node
+	headers  []*types.Block // blocks above the victim's head, the last one is the snapshot height
+	snap     []byte         // state snapshot at the last header (produced once)
+	declared []int          // op indices of the block-by-block alternative
 }
 
 func (s *scen) runFastSync(n *chainfx.Node, cdb *crashdb.DB, p *fsPlan) (err error) {
